@@ -201,8 +201,10 @@ pub fn eval(dna: &[u16]) -> Pair {
     let mut d = Dna::new(dna);
     let cfg = GenCfg::full();
     let built = gen::build(&mut d, &cfg);
-    let mut s1 = built.spec.clone();
-    let mut s2 = built.spec;
+    let mut base = built.spec;
+    let _ = crate::props::c12::exotic_in_process(&mut base, &mut d);
+    let mut s1 = base.clone();
+    let mut s2 = base;
     respell(&mut s1, &mut d);
     respell(&mut s2, &mut d);
     let a = s1.render_def_with("", true);
